@@ -120,6 +120,11 @@ def parse_template(path):
             pr = BT.findall(rest)
             kv, _ = parse_kv(BT.sub('', rest))
             items.append(('strlits', dict(lits=pr[1].split('|'), lemma=kv['lemma'], label=pr[0]), i))
+        elif word == 'composite':
+            # R40: the wire layout of a derive-macro composite, read from its declaration
+            pr = BT.findall(rest)
+            kv, _ = parse_kv(BT.sub('', rest))
+            items.append(('composite', dict(file=kv['file'], struct=kv['struct'], code=kv.get('code'), spec=pr[0].split(','), name=pr[1], label=pr[2], encoding=kv.get('encoding', 'list')), i))
         elif word == 'strconsts':
             pr = BT.findall(rest)
             kv, _ = parse_kv(BT.sub('', rest))
@@ -729,6 +734,86 @@ def extract_type(repo, blk, meta):
     return dict(lines=lines, log=log, hash=h, file=rel, line=src_line, name=kv['name'])
 
 
+def extract_composite(repo, kv, tline):
+    """R40: for a composite type whose (de)serialization is written by the derive macro, the declaration IS the wire layout: the fields in declaration order are the
+    positions of the described list, `#[amqp_contract(name, code, encoding)]` the descriptor and the form. The declaration order is emitted as the sequence of the fields'
+    positions in the SPECIFICATION's field table (given in the template), the descriptor code / name / encoding as constants; a generated lemma states that the sequence is
+    0, 1, 2, .. and that descriptor and form are the specification's. A field the table does not know is a lost anchor."""
+    rel = kv['file']
+    src, toks = X.load(repo, rel)
+    nm = kv['struct']
+    a, e, ob = X.find_typedef(toks, 'struct', nm)
+    line = toks[a].line
+    m = None
+    for mm in re.finditer(r'#\[amqp_contract\(([^\]]*?)\)\]\s*((?:#\[[^\]]*\]\s*|//[^\n]*\n\s*)*)pub\s+struct\s+%s\b' % re.escape(nm), src):
+        m = mm
+    if m is None:
+        raise X.LostAnchor('%s: no #[amqp_contract(..)] in front of struct %s' % (rel, nm))
+    attr = m.group(1)
+    def _a(key):
+        q = re.search(r'\b%s\s*=\s*"([^"]*)"' % key, attr)
+        return q.group(1) if q else None
+    a_name, a_code, a_enc, a_ren = _a('name'), _a('code'), _a('encoding'), _a('rename_all')
+    if a_name is None or a_code is None or a_enc is None:
+        raise X.LostAnchor('%s: struct %s: amqp_contract attribute without name / code / encoding' % (rel, nm))
+    cm = re.match(r'^0x([0-9a-fA-F_]+):0x([0-9a-fA-F_]+)$', a_code)
+    if not cm:
+        raise X.LostAnchor('%s: struct %s: descriptor code %r not understood' % (rel, nm, a_code))
+    code = (int(cm.group(1).replace('_', ''), 16) << 32) | int(cm.group(2).replace('_', ''), 16)
+    # fields in declaration order
+    body = X.strip_comments(toks[ob:e + 1]) if toks[ob].text == '{' else []
+    fields = []
+    if body:
+        sig = [t for t in body if t.kind not in ('ws', 'comment')]
+        depth = 0
+        ang = 0
+        k = 0
+        while k < len(sig):
+            t = sig[k]
+            if t.kind == 'punct' and t.text in '({[':
+                depth += 1
+            elif t.kind == 'punct' and t.text in ')}]':
+                depth -= 1
+            elif t.kind == 'punct' and t.text == '<' and depth == 1:
+                ang += 1
+            elif t.kind == 'punct' and t.text == '>' and depth == 1 and ang > 0 and not (sig[k - 1].kind == 'punct' and sig[k - 1].text == '-'):
+                ang -= 1
+            elif depth == 1 and ang == 0 and t.kind == 'ident' and t.text not in ('pub', 'crate', 'super', 'in') and k + 1 < len(sig) \
+                    and sig[k + 1].kind == 'punct' and sig[k + 1].text == ':' and not (k + 2 < len(sig) and sig[k + 2].kind == 'punct' and sig[k + 2].text == ':') \
+                    and not (sig[k - 1].kind == 'punct' and sig[k - 1].text == ':'):
+                fields.append(t.text)
+            k += 1
+    spec = [f.strip() for f in kv['spec'] if f.strip()]
+    pos = []
+    for f in fields:
+        wire = f.replace('_', '-').lstrip('r#') if a_ren == 'kebab-case' or a_ren is None else f
+        wire = f.replace('_', '-')
+        if wire not in spec:
+            raise X.LostAnchor('%s: struct %s: field `%s` is not in the field table of the specification given for it' % (rel, nm, f))
+        pos.append(spec.index(wire))
+    up = re.sub(r'(?<!^)(?=[A-Z])', '_', nm).upper()
+    lo = up.lower()
+    org_s = dict(kind='src', fn=nm, file=rel, line=line)
+    org_t = dict(kind='tmpl', tline=tline)
+    short = ' '.join(re.findall(r'\[C\d\d\.[^\]]+\]', kv['label']))
+    lines = []
+    lines.append(('/// struct %s (%s:%d): the positions, in the specification\'s field table, of the fields in DECLARATION order (= the order the derive macro writes and reads them); fields: %s' % (nm, rel, line, ', '.join(fields) or '(none)'), org_s))
+    lines.append(('pub open spec fn %s_decl_order() -> Seq<int> { seq![%s] }' % (lo, ', '.join('%dint' % p for p in pos)) if pos else 'pub open spec fn %s_decl_order() -> Seq<int> { Seq::empty() }' % lo, org_s))
+    lines.append(('pub const %s_CODE: u64 = 0x%x;' % (up, code), org_s))
+    lines.append(('pub const %s_NAME: &\'static str = "%s";' % (up, a_name), org_s))
+    lines.append(('pub const %s_ENCODING: &\'static str = "%s";' % (up, a_enc), org_s))
+    lines.append(('/// %s' % kv['label'], org_t))
+    lines.append(('pub proof fn lemma_%s_wire_layout()' % lo, org_t))
+    lines.append(('    ensures', org_t))
+    lines.append(('        %s_decl_order() =~= Seq::new(%d, |i: int| i),       // %s the fields are declared -- hence written and read -- in the order of the specification\'s field table: %s' % (lo, len(spec), short, ', '.join(spec) or '(no fields)'), org_t))
+    lines.append(('        %s_CODE == %s,       // %s descriptor code' % (up, kv['code'], short), org_t))
+    lines.append(('        %s_NAME@ == "%s"@,       // %s descriptor name' % (up, kv['name'], short), org_t))
+    lines.append(('        %s_ENCODING@ == "%s"@,       // %s composite form' % (up, kv['encoding'], short), org_t))
+    lines.append(('{ reveal_strlit("%s"); reveal_strlit("%s"); reveal_strlit("%s"); reveal_strlit("%s"); }' % (a_name, kv['name'], a_enc, kv['encoding']), org_t))
+    log = [('R40', 'struct %s: declaration order %s, descriptor %s / %s, encoding %s read from the declaration' % (nm, fields, a_name, a_code, a_enc), line)]
+    return dict(lines=lines, log=log, hash=hashlib.sha256(repr((fields, a_name, a_code, a_enc)).encode()).hexdigest()[:16], file=rel, line=line, name='composite ' + nm)
+
+
 def extract_strconsts(repo, kv, tline):
     """R38: `const NAME: &str = "literal";` items are copied from the source (type spelled `&'static str`), and a lemma stating that the
     named constants are pairwise different strings is GENERATED from the literals the source has on this run (reveal_strlit + a witness per
@@ -855,6 +940,11 @@ def generate(repo, template, mode=None, isolate=False):
             out += body
             out.append('}')
             em.emit_lines([(l, org) for l in out])
+            continue
+        if it[0] == 'composite':
+            r = extract_composite(repo, it[1], it[2])
+            em.emit_lines(r['lines'])
+            types.append(r)
             continue
         if it[0] == 'strconsts':
             r = extract_strconsts(repo, it[1], it[2])
